@@ -1628,15 +1628,48 @@ def make_builtins(I):
 
     @reg("zip")
     def _zip(I, a, k):
-        lists = [list(iterate(I, x)) for x in a]
-        if k.get("strict") and len({len(l) for l in lists}) > 1:
-            raise PyExc("ValueError", ("zip() arguments have different lengths",))
-        return [tuple(t) for t in zip(*lists)]
+        extra = set(k) - {"strict"}
+        if extra:
+            raise PyExc("TypeError", (f"zip() got an unexpected keyword argument '{sorted(extra)[0]}'",))
+        strict = k.get("strict", False)
+        if not isinstance(strict, (bool, int)):
+            raise Unsupported("zip(strict=<symbolic>)")
+        its = [iterate(I, x) for x in a]
+
+        def rows():
+            # lazy and in lockstep, like the builtin: one item of each iterable per row, left to right
+            if not its:
+                return
+            while True:
+                row = []
+                for j, it in enumerate(its):
+                    try:
+                        row.append(next(it))
+                    except StopIteration:
+                        if strict:
+                            if j > 0:
+                                raise PyExc("ValueError", (f"zip() argument {j + 1} is shorter than argument{'s 1-' + str(j) if j > 1 else ' 1'}",)) from None
+                            for j2, other in enumerate(its[1:], start=2):
+                                try:
+                                    next(other)
+                                except StopIteration:
+                                    continue
+                                raise PyExc("ValueError", (f"zip() argument {j2} is longer than argument{'s 1-' + str(j2 - 1) if j2 > 2 else ' 1'}",)) from None
+                        return
+                yield tuple(row)
+        return IterVal(rows())
 
     @reg("enumerate")
     def _enumerate(I, a, k):
         start = a[1] if len(a) > 1 else k.get("start", 0)
-        return [(start + i, x) for i, x in enumerate(iterate(I, a[0]))]
+        it = iterate(I, a[0])
+
+        def rows():
+            i = start
+            for x in it:
+                yield (i, x)
+                i = binop(I, "+", i, 1)
+        return IterVal(rows())
 
     @reg("hasattr")
     def _hasattr(I, a, k):
